@@ -6,4 +6,4 @@ CLAIM = ("Presentation order and independence of members: the real reader + basi
          "other members and whatever the decoder and arch layer returned; basic-reader position accounting (skip of exactly the unread remainder).")
 ASSUMPTIONS = ["thread interleavings are NOT explored: the claim for concurrent readers rests on the absence of shared mutable library state (static.* harness) - an argument, not a query",
                "members are abstract headers served by a stubbed parser; decoders are stubs with arbitrary results"]
-HARNESSES = [pos(3), rsm(2, 4, timeout=600), rsm(2, 5, timeout=900), rsm(3, 5, timeout=2400, tier="thorough")]
+HARNESSES = [THREADS, pos(3), rsm(2, 4, timeout=600), rsm(2, 5, timeout=900), rsm(3, 5, timeout=2400, tier="thorough")]
